@@ -9,6 +9,7 @@
 -/
 import TE.Driver.Fam
 import TE.Model.Binned
+import TE.Model.Fams
 import TE.Spec.Binned
 namespace TE.Driver
 open TE TE.Binned
@@ -65,19 +66,18 @@ def mlShapeOk (i t : T) (nl : Nat) : Bool :=
   i.shape == t.shape && i.ndim == 2 && i.shape[1]? == some nl
 
 /-- sufficient statistics of the multiclass binned curve: three `(T, C)` matrices, flattened. -/
-def mcStat (t : List Q) (nc : Option Nat) (opt : Option Opt) (a : Args) : Except Err (Mat × Mat × Mat) := do
+def mcStat (t : List Q) (nc : Option Nat) (opt : Option Opt) (a : Args) : Except Err Parts := do
   let some o := opt | throw .value
   paramCheck t
   let (i, tg) ← io a
   if !mcShapeOk i tg nc then throw .value
   let C := i.shape[1]?.getD 0
   let labs ← liftP (natsOf tg.data)
-  match o with
-  | .vectorized => mcVectorized t C i.rows labs
-  | .memory => mcMemory t C i.rows labs
+  -- typed family (TE/Model/Fams.lean): the count matrices of the chosen optimisation, flattened
+  Fams.mcBinnedStat t o C (i.rows, labs)
 
 def mlStat (t : List Q) (nl : Option Nat) (opt : Option Opt) (functional : Bool) (a : Args) :
-    Except Err (Mat × Mat × Mat) := do
+    Except Err Parts := do
   let some o := opt | throw .value
   paramCheck t
   let (i, tg) ← io a
@@ -85,9 +85,7 @@ def mlStat (t : List Q) (nl : Option Nat) (opt : Option Opt) (functional : Bool)
   let L := nl.getD (i.shape[1]?.getD 0)
   if !mlShapeOk i tg L then throw .value
   let tgts ← liftP (natRows tg)
-  match o with
-  | .vectorized => .ok (mlVectorized t L i.rows tgts)
-  | .memory => mlMemory t L i.rows tgts
+  Fams.mlBinnedStat t o L (i.rows, tgts)
 
 def partsOf (m : Mat × Mat × Mat) : Parts := [m.1.flatten, m.2.1.flatten, m.2.2.flatten]
 
@@ -96,17 +94,21 @@ def matsOf (p : Parts) (T S : Nat) : Mat × Mat × Mat :=
 
 /-- per-task `(num_tp, num_fp, num_fn)` of the binary binned AUPRC forms
     (`_binary_binned_auprc_update_input_check` + `_update` per row). -/
-def binAuprcStat (t : List Q) (numTasks : Nat) (a : Args) : Except Err (List (List Q × List Q × List Q)) := do
+def binAuprcBatch (t : List Q) (numTasks : Nat) (a : Args) : Except Err (List (List Q × List Nat)) := do
   if numTasks < 1 then throw .value
   auprcParamCheck t
   let (i, tg) ← io a
   if i.shape != tg.shape then throw .value
   if numTasks == 1 && !(i.ndim == 1 || i.ndim == 2) then throw .value
+  if numTasks == 1 && i.ndim == 2 && i.shape.head? != some 1 then throw .value
   if numTasks != 1 && (i.ndim != 2 || i.shape.head? != some numTasks) then throw .value
   let xs := if i.ndim == 1 then [i.data] else i.rows
   let ys ← liftP (if tg.ndim == 1 then (do pure [← natsOf tg.data]) else natRows tg)
   if xs.length < numTasks then throw .index
-  ((xs.zip ys).take numTasks).mapM fun p => binaryUpdate t p.1 p.2
+  pure ((xs.zip ys).take numTasks)
+
+def binAuprcStat (t : List Q) (numTasks : Nat) (a : Args) : Except Err (List (List Q × List Q × List Q)) := do
+  (← binAuprcBatch t numTasks a).mapM fun p => binaryUpdate t p.1 p.2
 
 def showAvg (isMacro : Bool) (vals : List Q) : String :=
   if isMacro then showScalarX (meanX vals) else showVecQ vals
@@ -135,8 +137,7 @@ def famBinaryBinnedPRC (cfg : Args) : Except String Fam := do
       let (i, tg) ← io a
       if !(i.ndim == 1 && tg.ndim == 1 && i.shape == tg.shape) then throw .value
       let ys ← liftP (natsOf tg.data)
-      let (tp, fp, fn) ← binaryUpdate t i.data ys
-      pure [tp, fp, fn]
+      Fams.binaryBinnedStat t (i.data, ys)
     outA := fun p => do
       paramCheck t
       let c := curveCompute (part p 0 T) (part p 1 T) (part p 2 T)
@@ -152,7 +153,7 @@ def famMulticlassBinnedPRC (cfg : Args) : Except String Fam := do
     | none, some (.t x) => x.shape[1]?.getD 0
     | _, _ => 0
   pure {
-    stat := fun a => do pure (partsOf (← mcStat t nc opt a))
+    stat := fun a => mcStat t nc opt a
     outA := fun p => do
       if opt.isNone then throw .value
       paramCheck t
@@ -169,7 +170,7 @@ def famMultilabelBinnedPRC (cfg : Args) : Except String Fam := do
     | none, some (.t x) => x.shape[1]?.getD 0
     | _, _ => 0
   pure {
-    stat := fun a => do pure (partsOf (← mlStat t nl opt functional a))
+    stat := fun a => mlStat t nl opt functional a
     outA := fun p => do
       if opt.isNone then throw .value
       paramCheck t
@@ -187,8 +188,8 @@ def famBinaryBinnedAUPRC (cfg : Args) : Except String Fam := do
   let numTasks := (← cfg.nat? "num_tasks").getD 1
   pure {
     stat := fun a => do
-      let rows ← binAuprcStat t numTasks a
-      pure [(rows.map (·.1)).flatten, (rows.map (·.2.1)).flatten, (rows.map (·.2.2)).flatten]
+      let b ← binAuprcBatch t numTasks a
+      Fams.binaryBinnedAuprcStat t numTasks b
     outA := fun p => do
       if numTasks < 1 then throw .value
       auprcParamCheck t
@@ -215,7 +216,7 @@ def famMulticlassBinnedAUPRC (cfg : Args) : Except String Fam := do
   pure {
     stat := fun a => do
       ok
-      pure (partsOf (← mcStat t (some C) opt a))
+      mcStat t (some C) opt a
     outA := fun p => do
       ok
       pure (showAvg (avg.getD true) (colAuprcs C (matsOf p t.length C))) }
@@ -237,7 +238,7 @@ def famMultilabelBinnedAUPRC (cfg : Args) : Except String Fam := do
   pure {
     stat := fun a => do
       ok
-      pure (partsOf (← mlStat t (some L) opt false a))
+      mlStat t (some L) opt false a
     outA := fun p => do
       ok
       pure (showAvg (avg.getD true) (colAuprcs L (matsOf p t.length L))) }
